@@ -323,7 +323,29 @@ def s_cfg(c):
     bb = lambda x: "true" if x else "false"
     return sl("cfg", "dir" if c["store"] == "dir" else "mem", bb(c["ro"]), bb(c["push"]), bb(c["delete"]),
               bb(c["blobdelete"]), bb(c["referrer"]), str(c["mlimit"]), str(c["rlimit"]),
-              str(c.get("uploadmax") or 1000))
+              str(c.get("uploadmax") or 1000),
+              bb(dflt(c.get("untagged"), False)), bb(dflt(c.get("dangling"), False)), bb(dflt(c.get("withsubj"), True)),
+              str(c.get("grace_ms") or 3600000))
+
+
+def dflt(v, d):
+    return d if v is None else v
+
+
+def gc_step(repo):
+    """Repo.gc() on one repository (the directory store is made to re-read index.json first, as the ticker's
+    collection does whenever the file changed since the last load)"""
+    return dict(kind="gc", repo=repo, impl=dict(op="gc", repo=repo), model=sl("gc", sx(repo)))
+
+
+def age_step(repo, digest, secs):
+    """the blob's modification time becomes now - secs (digest "" = every blob of the repository)"""
+    return dict(kind="age", repo=repo, impl=dict(op="age", repo=repo, digest=digest, secs=float(secs)),
+                model=sl("age", sx(repo), sx(digest), str(int(secs * 1000))))
+
+
+def restart_step():
+    return dict(kind="restart", impl=dict(op="restart"), model="(restart)")
 
 
 # ---- running the implementation ---------------------------------------------------------------
